@@ -19,7 +19,9 @@ LEVEL = "proof"
 TRUSTED_BASE = [
     "Lean 4.33 kernel",
     "hand-written model GraphiqModel/Model/StabTableau.lean (rref with its eight cases, height_func_list) tied to stabilizer.py/height.py by this correspondence run",
-    "entropy of a cut of a stabilizer state = rank(M_A) - |A| (textbook, Fattal et al.); minimality of max-height emitters for the emission order (Li, Economou, Barnes) is cited, not proved",
+    "von Neumann entropy of a cut of a stabilizer state = rank(M_A) - |A| = |B| - dim G_B (textbook, Fattal et al.): cited; that height_func_list "
+    "computes exactly these numbers (and the adjacency-block rank for graph states) is proved (C03.height_is_entropy_value, height_is_rank_minus_size, "
+    "graph_height_is_cut_rank); minimality of max-height emitters for the emission order (Li, Economou, Barnes) is cited, not proved",
     "harness, line protocol, independent Python GF(2) rank",
 ]
 ASSUMPTIONS = ["generating sets are independent and commuting; dependent sets are the malformed stream (error-class comparison only)"]
@@ -75,6 +77,7 @@ def rref_cases(res, drv, rng, states):
     from graphiq.backends.stabilizer.functions.stabilizer import rref
 
     lines, items = [], []
+    ech_lines, ech_items = [], []
     for st in states:
         inp = {"stab": su.stab_args(st)}
         res.evaluations += 1
@@ -83,10 +86,20 @@ def rref_cases(res, drv, rng, states):
             impl = su.stab_tuple(out)
             if su.stab_canon_of(out) != su.stab_canon_of(st):
                 res.violation("rref:changes-group", "rref changed the signed stabilizer group", input=inp, impl=su.stab_args(out))
+            # the post-condition proved of the model's rref (Echelon / STab.echelonB), evaluated by the verified predicate on the
+            # tableau the real code returned
+            ech_lines.append(f"stab.echelon {su.stab_args(out)}")
+            ech_items.append((inp, su.stab_args(out)))
         except Exception as e:  # noqa: BLE001
             impl = "err " + err_class(e)
         lines.append(f"stab.rref {su.stab_args(st)}")
         items.append((inp, impl))
+    for rep, (inp, out_args) in zip(drv.batch(ech_lines), ech_items):
+        if rep["_status"] != "ok" or rep.get("ech") != "1":
+            res.violation("rref:not-echelon", "the tableau returned by rref is not in echelon form (leading sites non-decreasing, "
+                          "at most two generators per leading site, with different Paulis there)", input=inp, impl=out_args)
+        else:
+            res.traces_validated += 1
     for rep, (inp, impl) in zip(drv.batch(lines), items):
         if rep["_status"] == "ok":
             res.branch(rep.get("br", "-").split(","))
@@ -260,6 +273,7 @@ def replay(ctx, data):
     pending = []
     check_state(res, stab_of_args(inp["stab"]), "replay", pending)
     flush(res, drv, pending)
+    rref_cases(res, drv, ctx.rng, [stab_of_args(inp["stab"])])
     drv.close()
     for x in res.violations:
         print(x["key"], x["clause"])
